@@ -586,6 +586,14 @@ func raceBody(c *column.Collection, cols []ColSpec, stable []uint32, tp *ThreadP
 				other.Close()
 			case "mkindex":
 				name := fmt.Sprintf("rix%d_%d_%d", ti, xi, oi)
+				if op.Name != "" {
+					// an index whose target is itself an index: accepted by the library (it selects
+					// nothing); creating and dropping it must leave nothing locked
+					c.CreateIndex(name, op.Name, func(r column.Reader) bool { return true })
+					rYield(ptBetween)
+					c.DropIndex(name)
+					break
+				}
 				if col, ok := colOf(cols, op.Col); ok {
 					c.CreateIndex(name, col.Name, PredSpec{Fam: predFamFor(col.Kind), I: 10, F: 10, S: "c"}.rule())
 					rYield(ptBetween)
